@@ -15,90 +15,15 @@ func init() {
 func checkC21(r *Run) {
 	r.Explain = "C21 (translation validation): for each generated codec, the wire schema Ref(T) is derived from the Go type and its enc tags following the reference encoder's rules (field order, unexported/'-' skipped, u32 length prefixes, omitempty only last, maxlen per field), and the ASTs of encodeSizeT, encodeTToBuffer, decodeT, decodeTExact and the allocating wrapper are walked along Ref(T): every schema item must be implemented by statements of exactly the shape that realises it, with the reference's guards in the reference's order (buffer-size guard first; length read, underflow check, maxlen == tag, allocate only afterwards; array guards; exact = consumed == len). Any statement outside that language is 'undecided' and fails."
 	r.NotDec = "the reference encoder's own conformance to its comment-spec (Ref re-implements its three walkers); byte-level behaviour of the Encoder/Decoder primitives beyond their length guards"
-	files := r.P.findCodecFiles()
-	sort.Slice(files, func(i, j int) bool {
-		return r.P.Pos(files[i].file.Pos()) < r.P.Pos(files[j].file.Pos())
-	})
-	r.Units["codec files"] = len(files)
-	if len(files) < 29 {
-		r.Fail("C21-R0", "codec discovery", "", fmt.Sprintf("found %d generated codec files, hand-confirmed minimum is 29", len(files)))
+	nFiles, fields, samples := codecObligations(r, "C21", nil)
+	r.Units["codec files"] = nFiles
+	if nFiles < 29 {
+		r.Fail("C21-R0", "codec discovery", "", fmt.Sprintf("found %d generated codec files, hand-confirmed minimum is 29", nFiles))
 	}
-	var samples []interface{}
-	fields := 0
-	nonCanonical := 0
-	for _, cf := range files {
-		fname := strings.TrimPrefix(r.P.Fset.Position(cf.file.Pos()).Filename, r.P.RepoDir+"/")
-		if cf.typ == nil || cf.name == "" {
-			r.Fail("C21-R0", fname+": codec type", fname, "undecided: cannot determine the encoded type")
-			continue
-		}
-		qual := func(p *types.Package) string {
-			if p == cf.pkg.Types {
-				return ""
-			}
-			return p.Name()
-		}
-		items, err := refSchema(cf.typ, "obj", qual)
-		if err != nil {
-			r.Fail("C21-R0", fname+": reference schema", fname, "undecided: "+err.Error())
-			continue
-		}
-		var ss []string
-		for _, it := range items {
-			ss = append(ss, it.String())
-		}
-		tname := shortPkg(cf.pkg.PkgPath) + "." + cf.name
-		samples = append(samples, map[string]interface{}{"type": tname, "file": fname, "schema": ss})
-		run := func(rule, what string, fnName string, f func(c *codecCheck)) {
-			c := &codecCheck{p: r.P, cf: cf}
-			fd := cf.funcs[fnName]
-			if fd == nil {
-				r.Fail(rule, tname+": "+fnName, fname, "anchor-unresolved: generated function missing")
-				return
-			}
-			f(c)
-			fields += c.nItems
-			detail := what + " matches Ref(" + tname + ")"
-			if len(c.fails) > 0 {
-				detail = strings.Join(c.fails, " | ")
-			}
-			r.Check(rule, tname+": "+fnName+" "+what, r.P.Pos(fd.Pos()), len(c.fails) == 0, trunc(detail, 600))
-		}
-		run("C21-R1", "size", "encodeSize"+cf.name, func(c *codecCheck) { c.checkSize(cf.funcs["encodeSize"+cf.name], items) })
-		run("C21-R1", "encoding", "encode"+cf.name+"ToBuffer", func(c *codecCheck) { c.checkEncode(cf.funcs["encode"+cf.name+"ToBuffer"], items) })
-		run("C21-R1", "allocating wrapper", "encode"+cf.name, func(c *codecCheck) { c.checkEncodeWrapper(cf.funcs["encode"+cf.name]) })
-		run("C21-R2", "decoding", "decode"+cf.name, func(c *codecCheck) { c.checkDecode(cf.funcs["decode"+cf.name], items) })
-		run("C21-R2", "exact decoding", "decode"+cf.name+"Exact", func(c *codecCheck) { c.checkExact(cf.funcs["decode"+cf.name+"Exact"]) })
-		// no other function in the file
-		for name := range cf.funcs {
-			switch name {
-			case "encodeSize" + cf.name, "encode" + cf.name, "encode" + cf.name + "ToBuffer", "decode" + cf.name, "decode" + cf.name + "Exact":
-			default:
-				r.Fail("C21-R0", tname+": unexpected function "+name, fname, "undecided: function outside the generator's set")
-			}
-		}
-		// R3 canonicity
-		canon := true
-		var walk func(its []cItem)
-		walk = func(its []cItem) {
-			for _, it := range its {
-				if it.Omit {
-					canon = false
-				}
-				walk(it.Elem)
-			}
-		}
-		walk(items)
-		if !canon {
-			nonCanonical++
-			r.Note("%s has an omitempty tail: the empty tail has two encodings on the wire (absent / length 0 is never produced by the encoder; decoding an explicit zero length yields the same value) — documented, reported not armed", tname)
-		}
-	}
-	r.Extra["programs"] = len(files) * 5
+	r.Extra["programs"] = nFiles * 5
 	r.Extra["disagreements_checked"] = fields
 	r.Extra["samples"] = samples
 	r.Units["schema items walked"] = fields
-	r.Units["codecs with omitempty tail"] = nonCanonical
 	// R5 primitive guards of the decoder
 	for _, m := range []struct {
 		name string
@@ -128,4 +53,91 @@ func checkC21(r *Run) {
 		}
 		r.Check("C21-R4", c.fn+" parses "+c.lit+" (the constant Ref(T) uses)", r.P.Pos(fn.Pos()), found, "")
 	}
+}
+
+// codecObligations runs the translation-validation rules on every generated codec whose type name passes
+// keep (nil = all) under the given rule-name prefix; returns files checked, schema items walked, samples.
+func codecObligations(r *Run, pre string, keep func(tname string) bool) (int, int, []interface{}) {
+	files := r.P.findCodecFiles()
+	sort.Slice(files, func(i, j int) bool {
+		return r.P.Pos(files[i].file.Pos()) < r.P.Pos(files[j].file.Pos())
+	})
+	nFiles := 0
+	var samples []interface{}
+	fields := 0
+	nonCanonical := 0
+	for _, cf := range files {
+		fname := strings.TrimPrefix(r.P.Fset.Position(cf.file.Pos()).Filename, r.P.RepoDir+"/")
+		if cf.typ == nil || cf.name == "" {
+			r.Fail(pre+"-R0", fname+": codec type", fname, "undecided: cannot determine the encoded type")
+			continue
+		}
+		qual := func(p *types.Package) string {
+			if p == cf.pkg.Types {
+				return ""
+			}
+			return p.Name()
+		}
+		items, err := refSchema(cf.typ, "obj", qual)
+		if err != nil {
+			r.Fail(pre+"-R0", fname+": reference schema", fname, "undecided: "+err.Error())
+			continue
+		}
+		var ss []string
+		for _, it := range items {
+			ss = append(ss, it.String())
+		}
+		tname := shortPkg(cf.pkg.PkgPath) + "." + cf.name
+		if keep != nil && !keep(tname) {
+			continue
+		}
+		nFiles++
+		samples = append(samples, map[string]interface{}{"type": tname, "file": fname, "schema": ss})
+		run := func(rule, what string, fnName string, f func(c *codecCheck)) {
+			c := &codecCheck{p: r.P, cf: cf}
+			fd := cf.funcs[fnName]
+			if fd == nil {
+				r.Fail(rule, tname+": "+fnName, fname, "anchor-unresolved: generated function missing")
+				return
+			}
+			f(c)
+			fields += c.nItems
+			detail := what + " matches Ref(" + tname + ")"
+			if len(c.fails) > 0 {
+				detail = strings.Join(c.fails, " | ")
+			}
+			r.Check(rule, tname+": "+fnName+" "+what, r.P.Pos(fd.Pos()), len(c.fails) == 0, trunc(detail, 600))
+		}
+		run(pre+"-R1", "size", "encodeSize"+cf.name, func(c *codecCheck) { c.checkSize(cf.funcs["encodeSize"+cf.name], items) })
+		run(pre+"-R1", "encoding", "encode"+cf.name+"ToBuffer", func(c *codecCheck) { c.checkEncode(cf.funcs["encode"+cf.name+"ToBuffer"], items) })
+		run(pre+"-R1", "allocating wrapper", "encode"+cf.name, func(c *codecCheck) { c.checkEncodeWrapper(cf.funcs["encode"+cf.name]) })
+		run(pre+"-R2", "decoding", "decode"+cf.name, func(c *codecCheck) { c.checkDecode(cf.funcs["decode"+cf.name], items) })
+		run(pre+"-R2", "exact decoding", "decode"+cf.name+"Exact", func(c *codecCheck) { c.checkExact(cf.funcs["decode"+cf.name+"Exact"]) })
+		// no other function in the file
+		for name := range cf.funcs {
+			switch name {
+			case "encodeSize" + cf.name, "encode" + cf.name, "encode" + cf.name + "ToBuffer", "decode" + cf.name, "decode" + cf.name + "Exact":
+			default:
+				r.Fail(pre+"-R0", tname+": unexpected function "+name, fname, "undecided: function outside the generator's set")
+			}
+		}
+		// R3 canonicity
+		canon := true
+		var walk func(its []cItem)
+		walk = func(its []cItem) {
+			for _, it := range its {
+				if it.Omit {
+					canon = false
+				}
+				walk(it.Elem)
+			}
+		}
+		walk(items)
+		if !canon {
+			nonCanonical++
+			r.Note("%s has an omitempty tail: the empty tail has two encodings on the wire (absent / length 0 is never produced by the encoder; decoding an explicit zero length yields the same value) — documented, reported not armed", tname)
+		}
+	}
+	r.Units["codecs with omitempty tail"] += nonCanonical
+	return nFiles, fields, samples
 }
